@@ -330,13 +330,13 @@ def custom_correspondence(ctx: Ctx):
         fwd = rng.random() < 0.4
         x0 = z if fwd else _gauss(rng, (p.n,), -3, 3, 0.3)
 
-        def run(tol, p=p, fop=fop, bop=bop, ut=ut, iters=iters, y=y, z=z, x0=x0, S=S, m=m, lam=lam, fwd=fwd):
+        def run(tol, ls=1.0, p=p, fop=fop, bop=bop, ut=ut, iters=iters, y=y, z=z, x0=x0, S=S, m=m, lam=lam, fwd=fwd):
             blk = ConjGrad(fop, bop, num_iters=iters, tol=tol, bk_update_type=CGUpdateType(_UPD[ut]))
             with torch.no_grad():
                 if fwd:
-                    out = blk(p.kspace(y), S, m, p.image(z), lam)
+                    out = blk(p.kspace(y), S, m, p.image(z), lam * ls)
                 else:
-                    out = blk.cg(p.image(x0), p.kspace(y), S, m, lam, p.image(z))
+                    out = blk.cg(p.image(x0), p.kspace(y), S, m, lam * ls, p.image(z))
             return [float(v) for v in out.reshape(-1).tolist()]
 
         if fwd:
@@ -379,6 +379,18 @@ def custom_correspondence(ctx: Ctx):
             if any(close(a, want) for a in alt):
                 ctx.notes.append("borderline stopping decision: " + c["line"][:80])
                 continue
+        # an input at which the real block itself is discontinuous (an exactly vanishing denominator is `0` in exact
+        # arithmetic and `rounding noise` in floating point: non-SPD operator pairs, DY/BAN) cannot be compared
+        if got is not None and want is not None:
+            try:
+                pert = c["run"](c["tol"], 1 + 1e-9)
+                sc = max(1.0, max(abs(v) for v in want))
+                if not all(abs(u - v) <= 1e-4 * sc for u, v in zip(pert, got)) or not all(math.isfinite(v) for v in got):
+                    ctx.notes.append("float evaluation unstable at this input (guarded division), skipped: " + c["line"][:80])
+                    ctx.hist["cg/unstable-input-skipped"] = ctx.hist.get("cg/unstable-input-skipped", 0) + 1
+                    continue
+            except Exception:  # noqa: BLE001
+                pass
         dis.append({"line": c["line"], "impl": impl_s + " " + str(got), "model": ans, "key": c["bucket"]})
     return dis
 
